@@ -10,6 +10,9 @@ import subprocess
 import sys
 
 V = "/verif"
+# seeded changes whose own property check stays quiet because what breaks lies in a sibling property's domain
+# (index bases -> C19, unequal allocators -> C10): the sibling's quick check is run as well
+SIBLINGS = {"C01-r2-1": ["C19"], "C05-r2-1": ["C19"], "C06-r2-1": ["C19"], "C08-r2-1": ["C10"]}
 ids = sys.argv[1:] or sorted(os.listdir(os.path.join(V, "seeded")))
 for sid in ids:
     d = os.path.join(V, "seeded", sid)
@@ -45,10 +48,18 @@ for sid in ids:
         meta["first_signatures"] = sigs[:4]
         if p.returncode not in (0, 1):
             meta["output_tail"] = p.stdout[-600:]
+        meta["detected_by"] = [prop] if p.returncode == 1 else []
+        for sib in SIBLINGS.get(sid, []):
+            q = subprocess.run([os.path.join(V, "bin", "vcheck"), sib, "--tier", "quick"], stdout=subprocess.PIPE, stderr=subprocess.STDOUT, text=True, env=env, cwd=V)
+            meta.setdefault("siblings", {})[sib] = {"quick_rc": q.returncode, "violation_lines": q.stdout.count("VIOLATION property="),
+                                                     "first_signatures": re.findall(r"signature: (\{.*\})", q.stdout)[:3]}
+            if q.returncode == 1:
+                meta["detected_by"].append(sib)
+        meta["detected"] = bool(meta["detected_by"])
     with open(os.path.join(d, "meta.json"), "w") as f:
         json.dump(meta, f, indent=1)
     shutil.rmtree(scratch, ignore_errors=True)
     import hashlib
     shutil.rmtree(os.path.join(V, "build_" + hashlib.sha1(os.path.realpath(scratch).encode()).hexdigest()[:8]), ignore_errors=True)
-    print(sid, "applies" if meta.get("applies_to_current_tree") else "DOES-NOT-APPLY", "detected" if meta.get("detected") else "rc=%s" % meta.get("quick_rc"), flush=True)
+    print(sid, "applies" if meta.get("applies_to_current_tree") else "DOES-NOT-APPLY", ("detected by %s" % meta.get("detected_by")) if meta.get("detected") else "rc=%s" % meta.get("quick_rc"), flush=True)
 subprocess.run("rm -rf /verif/build_*", shell=True)
